@@ -117,10 +117,12 @@ def check_receiver(ctx, trx, where):
             ctx.violation('receiver-identity', f'{where}: {tag} 1/GSNR != 1/OSNR_ASE + 1/SNR_NLI '
                           f'(max rel dev {np.max(np.abs(lhs - rhs) / rhs):.3e})',
                           {'snr': snr[:6], 'osnr_ase': osnr[:6], 'osnr_nli': nli[:6]})
-    lhs = db2lin(-np.asarray(trx.snr_01nm, dtype=float)) - db2lin(-np.asarray(trx.osnr_ase_01nm, dtype=float))
-    rhs = db2lin(-(np.asarray(trx.osnr_nli, dtype=float) - 10 * np.log10(12.5e9 / np.asarray(trx.baud_rate))))
+    # (compared as sums, not as a difference: on a noise-dominated line 1/GSNR and 1/OSNR_ASE are huge and nearly equal)
+    lhs = db2lin(-np.asarray(trx.snr_01nm, dtype=float))
+    rhs = db2lin(-np.asarray(trx.osnr_ase_01nm, dtype=float)) + \
+        db2lin(-(np.asarray(trx.osnr_nli, dtype=float) - 10 * np.log10(12.5e9 / np.asarray(trx.baud_rate))))
     ctx.count('receiver_identity_checks')
-    if not close(lhs, rhs, 1e-7, 1e-18):
+    if not close(lhs, rhs, 1e-9):
         ctx.violation('receiver-identity', f'{where}: 0.1nm figures inconsistent with SNR_NLI',
                       {'snr_01nm': trx.snr_01nm[:6], 'osnr_ase_01nm': trx.osnr_ase_01nm[:6]})
 
